@@ -3,7 +3,9 @@ proof: kkt_sufficient / kkt_ok_sound / kkt_gap_sound / uniqueness / order indepe
 refutation of "IncSolver::solve always returns the optimum" for the solve() loop before /repo 676ca34 (Vpsc/VpscRefute.v);
 tie: V (the proved certificate checker kkt_ok decides optimality of every real solve() result: multipliers come from
 the active forest of the REAL solver's final state, never from its stale lm fields; fall-backs: the model's forest,
-exact active-set enumeration for n<=5, the proved duality-gap bound) + C (model vs implementation, as in C01)."""
+exact active-set enumeration for n<=5, the proved duality-gap bound) + C (model vs implementation, as in C01).
+Histories include re-solves after Variable::weight was changed on the live solver (op W, the pin / lock idiom): the
+certificate uses the weights in force at that solve; model Vpsc/VpscModelW.v, invariant preservation Vpsc/VpscWeight.v."""
 import os, json
 from fractions import Fraction as Fr
 from vlib import common as C
@@ -211,7 +213,8 @@ META = {
                 'before /repo 676ca34 (C02_solve_optimal_refuted_before_fix; witnesses replayed on the real code, now regression inputs in the corpus); for the '
                 'current loop it is decided per run by the certificate (C02_solve_certified_partial), not proved for all runs. Proved for all op histories of '
                 'the model (second round): the active constraints of every block form a spanning tree, are tight, block statistics are the sums over the block '
-                '(C02_active_forest_reachable), and the positions solve() returns are feasible for the unflagged constraints (C02_solve_feasible_history).',
+                '(C02_active_forest_reachable), and the positions solve() returns are feasible for the unflagged constraints (C02_solve_feasible_history); '
+                'both also for histories that change Variable::weight between solves (C02_active_forest_weight_history, C02_solve_feasible_weight_history).',
         'design_ref': 'DESIGN.md 5.2'},
     'level_note': 'Trusted: Coq kernel; extraction + OCaml driver (its optimum-proposing helpers are unverified but every proposal passes the proved kkt_ok); C++ harness; '
                   'exact-rational model of binary64. Not proved: that solve() reaches a KKT point (tree induction over compute_dfdv not done); termination; '
